@@ -165,7 +165,11 @@ def judge(st, replace, requested, tin, tout, commented_template=False, first_lin
 
 
 def requested_strings(case):
-    return list(case["cpr"]) + list(case["lic"])
+    con = list(case.get("con", [])) if case.get("tmpl", "default") in ("default", "adds-text", "commented") else []
+    if len(case.get("f", "")) > 2 and case["f"][2] == "1":
+        # --merge-copyrights rewrites the notices (one line per holder, years as a range): the holders must still be named
+        return [re.sub(r"^.*\d{4},? ", "", c) for c in case["cpr"]] + list(case["lic"]) + con
+    return list(case["cpr"]) + list(case["lic"]) + con
 
 
 def licence_values(texts):
@@ -462,6 +466,116 @@ class CliStream(C08Stream):
 
 
 # --------------------------------------------------------------------------
+# stream 6: long lines (minified bundles, one-line exports, generated tables): nothing about a file's line endings or its
+# lines may depend on where in the file the first line break stands
+
+
+LONG_SIZES_QUICK = [4000, 4095, 4096, 4097, 5000, 8193, 65537]
+LONG_SIZES = [4000, 4094, 4095, 4096, 4097, 4100, 5000, 8191, 8193, 12289, 65535, 65537, 70001, 262145, 1048577]
+LONG_FILLS = ["x", "var a=1;", "é", "<p>t</p>", "张"]
+LONG_WHERE = ["first", "first", "first", "after-first", "last", "long-shebang", "only", "middle", "blank-run"]
+MODEL_LIMIT = 6000      # the model's text functions are quadratic in the length of a line: compared up to here, judged by the oracle beyond
+
+
+def long_body(spec, st):
+    """The text of a long-line case.  spec = {n, fill, where, le, final, hdr, bom}: one run of about n characters without a
+    line break, standing where `where` says; the other lines are short."""
+    n, fill = spec["n"], spec["fill"]
+    run = (fill * (n // len(fill) + 1))[:n]
+    sheb = (st.SHEBANGS[0] if st.SHEBANGS else "#!") + " first"
+    hdr = []
+    if spec["hdr"]:
+        hdr = st.create_comment("SPDX-FileCopyrightText: 2017 Prev Holder\n\nSPDX-License-Identifier: ISC").split("\n") + [""]
+    w = spec["where"]
+    if w == "first":
+        lines = [run] + hdr + ["second = 2", "third"]
+    elif w == "after-first":
+        lines = ["a = 1"] + hdr + [run, "third"]
+    elif w == "last":
+        lines = hdr + ["a = 1", "b", run]
+    elif w == "long-shebang":
+        lines = [sheb + " " + run] + hdr + ["second = 2"]
+    elif w == "only":
+        lines = [run]
+    elif w == "middle":
+        lines = hdr + ["a = 1", run, "", "c = 3"]
+    else:                                   # a run of blanks in front of the first break
+        lines = [" " * n] + hdr + ["second = 2"]
+    text = "\n".join(lines)
+    if spec["final"]:
+        text += "\n"
+    text = text.replace("\n", spec["le"])
+    return (BOM if spec["bom"] else "") + text
+
+
+class LongLineStream(C08Stream):
+    name = "longlines"
+    rule = ("add_header_to_file on scratch files holding one run of 4 000 .. 1 048 577 characters without a line break (sizes around 4 KiB, "
+            "8 KiB, 64 KiB, 256 KiB, 1 MiB; ASCII, two- and three-byte fills) as the first line, after a short first line, as the last line, "
+            "inside a shebang line, as the only line, in the middle, or as a run of blanks, x LF / CRLF / CR x with / without final newline x "
+            "own-style header below the long line or none x byte order mark x replace / --no-replace x a sample of styles (all in thorough); "
+            "oracle as for `bodies` (every line break of the file is kept in its convention, every line kept); the model is compared up to "
+            "6 000 characters; non-trivial = distinct (style, where, size class, ending, outcome)")
+
+    def cases(self, tier, rng):
+        thorough = tier == "thorough"
+        styles = [st for st in all_styles() if st.__name__ not in ("UncommentableCommentStyle", "EmptyCommentStyle")]
+        sizes = LONG_SIZES if thorough else LONG_SIZES_QUICK
+        out = []
+        for le in ("\r\n", "\r", "\n"):
+            for n in sizes:
+                reps = (3 if n < 100000 else 1) if not thorough else (8 if n < 100000 else 3)
+                if le == "\n" and not thorough:
+                    reps = 1
+                for r in range(reps):
+                    st = rng.choice(styles)
+                    where = "first" if r == 0 else rng.choice(LONG_WHERE)
+                    spec = {"n": n, "fill": "x" if r == 0 else rng.choice(LONG_FILLS), "where": where, "le": le, "final": rng.random() < 0.7,
+                            "hdr": where != "only" and rng.random() < 0.4, "bom": rng.random() < 0.1}
+                    cpr, lic, con = rand_info(rng)
+                    force = "1" if (st.can_handle_multi() and rng.random() < 0.3) else "0"
+                    out.append({"s": st.__name__, "f": "0" + force + "0" + rng.choice("110") + "0", "tmpl": "default", "cpr": cpr, "lic": lic, "con": con,
+                                "long": spec})
+        if not thorough:
+            # one file of a mebibyte per non-LF convention in the quick tier as well
+            for le in ("\r\n", "\r"):
+                out.append({"s": "CppCommentStyle", "f": "00010", "tmpl": "default", "cpr": ["SPDX-FileCopyrightText: 2020 Jane Doe"], "lic": ["MIT"], "con": [],
+                            "long": {"n": 1048577, "fill": "var a=1;", "where": "first", "le": le, "final": True, "hdr": False, "bom": False}})
+        return out
+
+    def text_in(self, case):
+        return long_body(case["long"], style_by_name(case["s"]))
+
+    def impl(self, case):
+        import base64
+        import zlib
+        o = annotcorr.run_annotate(dict(case, t=self.text_in(case)))
+        if o.startswith("W:") and case["long"]["n"] > MODEL_LIMIT:
+            return "WZ:" + base64.b64encode(zlib.compress(dec(o[2:]).encode("utf-8"), 1)).decode("ascii")
+        return o
+
+    def oracle(self, case, impl_out):
+        import base64
+        import zlib
+        if impl_out.startswith("WZ:"):
+            impl_out = "W:" + enc(zlib.decompress(base64.b64decode(impl_out[3:])).decode("utf-8"))
+        return C08Stream.oracle(self, case, impl_out)
+
+    def model_lines(self, case):
+        if case["long"]["n"] > MODEL_LIMIT:
+            return []
+        t = self.text_in(case)
+        return [model_line(dict(case, t=t, bad=[]))]
+
+    def nontrivial(self, case, impl_out):
+        sp = case["long"]
+        return (case["s"], sp["where"], len(str(sp["n"])), sp["le"], impl_out[:2]) if impl_out.startswith("W") else None
+
+    def show(self, case):
+        return {k: case[k] for k in ("s", "f", "cpr", "lic", "con", "long")}
+
+
+# --------------------------------------------------------------------------
 # stream 5: the theorems' witnesses against the real output
 
 
@@ -550,7 +664,7 @@ class TheoremStream(C08Stream):
 
 PROPERTY = Property(
     pid="C08",
-    streams=[BodiesStream(), ExhaustiveStream(), TheoremStream(), AnnotateStream(), CliStream()],
+    streams=[BodiesStream(), ExhaustiveStream(), TheoremStream(), AnnotateStream(), CliStream(), LongLineStream()],
     assumptions=[
         "line-level statements are about texts whose only line boundary after normalisation is \\n (Spec.NoExoticBreaks); with \\v \\f "
         "\\x1c-\\x1e \\x85 U+2028 U+2029 inside a line the model (full str.splitlines) and the code are compared, the oracle is not applied",
